@@ -125,9 +125,9 @@ structure DftIn where
   fnEqL : Bool := true    -- `Fn == L`
   fsLe1 : Bool := true    -- `Fs <= 1`
   nRaw : Nat := 1         -- Kaiser length estimate (floating point; opaque)
-  tpLen : Nat := 1        -- result of `lsx_fir_to_phase` on the rounded length: new `num_taps` …
+  tpLen : Nat := 1        -- result of `lsx_fir_to_phase` on the rounded length: new `num_taps` (before the tap padding) …
   tpPost : Nat := 0       -- … and `post_peak`   (ignored when `lin`)
-  dftLen : Nat := 1       -- what `set_dft_length(num_taps, min, large)` answers (floating-point `log`; opaque), BEFORE the padding loop
+  dftLen : Nat := 1       -- what `set_dft_length(num_taps, min, large)` answers for the final (padded) `num_taps` (floating-point `log`; opaque), BEFORE the padding loop
   deriving Repr, Inhabited, DecidableEq
 
 /-- `while (dft_length < 32 * L) dft_length <<= 1;` (fuelled; `32·L` iterations are more than the loop can take from any
@@ -143,6 +143,7 @@ def finalDftLen (L D : Nat) : Nat := if isPow2L L then padDft L (32 * L) D else 
 structure DftOut where
   k : Nat
   nDesign : Nat           -- `num_taps` as designed (before `lsx_fir_to_phase`)
+  padTaps : Nat           -- trailing zeros appended after `lsx_fir_to_phase` (0 for linear phase)
   numTaps : Nat
   postPeak : Nat
   dftLen : Nat
@@ -154,20 +155,33 @@ structure DftOut where
   isz : Nat               -- `input_size`
   deriving Repr, Inhabited, DecidableEq
 
-/-- `dft_stage_init`, the first time a filter instance is set up (`!f->dft_length`) -/
-def dftStageInit (i : DftIn) : DftOut :=
+/-- trailing zeros `dft_stage_init` appends to the transformed (non-linear phase) filter of a power-of-two up-sampling
+    stage so that `L ∣ num_taps - 1` (repair of F1):
+    `if (lsx_is_power_of_2(L) && (num_taps - 1) % L) pad = L - (num_taps - 1) % L;` -/
+def tapPad (L numTaps : Nat) : Nat := if isPow2L L && (numTaps - 1) % L != 0 then L - (numTaps - 1) % L else 0
+
+/-- `dft_stage_init`, the first time a filter instance is set up (`!f->dft_length`).  `padFilter = true` is the code as it
+    is; `false` leaves out the tap-padding step — the arithmetic before the repair of F1, kept for the historical witness. -/
+def dftStageInitWith (padFilter : Bool) (i : DftIn) : DftOut :=
   let k := designK i.lin i.L i.fnEqL
   let n0 := roundTaps i.nRaw k
-  let n := if i.lin then n0 else i.tpLen
-  let pp := if i.lin then n0 / 2 else i.tpPost
+  let pad := if i.lin || !padFilter then 0 else tapPad i.L i.tpLen      -- `num_taps += pad, f->post_peak += pad`
+  let n := if i.lin then n0 else i.tpLen + pad
+  let pp := if i.lin then n0 / 2 else i.tpPost + pad
   let fdm := (i.M == 2 || i.M == 4) && i.fsLe1        -- `abs(3-M) == 1 && Fs <= 1`
   let clk := pp % i.L
   let D := finalDftLen i.L i.dftLen
-  { k := k, nDesign := n0, numTaps := n, postPeak := pp, dftLen := D, L := i.L,
+  { k := k, nDesign := n0, padTaps := pad, numTaps := n, postPeak := pp, dftLen := D, L := i.L,
     preload := pp / i.L, clk := clk,
     step := if fdm then -((i.M / 2 : Nat) : Int) else (i.M : Int),
     blockLen := D - (n - 1),
     isz := (D - clk + i.L - 1) / i.L }
+
+/-- `dft_stage_init` as it is in the working tree -/
+def dftStageInit (i : DftIn) : DftOut := dftStageInitWith true i
+
+/-- the arithmetic of `dft_stage_init` before the repair of F1 (no tap padding): historical -/
+def dftStageInitPreF1 (i : DftIn) : DftOut := dftStageInitWith false i
 
 /-- The clause of the frequency-domain up-sampling path of `dft_stage_fn` (`lsx_is_power_of_2(L)`): it transforms
     `dft_length / L` input frames per block, reads `⌈(block_len - at)/L⌉` and ignores `at`; that is a correct
